@@ -174,11 +174,11 @@ func DecodeUUIDBoxSR(hdr BoxHeader, startPos uint64, sr bits.SliceReader) (Box, 
 		}
 		b.Tfrf = tfrf
 	case UUIDPiffSenc:
-		if hdr.Size < 16 {
-			return nil, fmt.Errorf("uuid box size too small: %d < 16", hdr.Size)
+		if hdr.Size < uint64(hdr.Hdrlen)+16 {
+			return nil, fmt.Errorf("uuid box size too small: %d < %d", hdr.Size, hdr.Hdrlen+16)
 		}
 		// This is like a SencBox except that there is no size and type. Offset and sizes must be slightly adjusted.
-		subHdr := BoxHeader{"senc", hdr.Size - 16, 8}
+		subHdr := BoxHeader{"senc", hdr.Size - uint64(hdr.Hdrlen) - 8, 8}
 		box, err := DecodeSencSR(subHdr, b.StartPos+16, sr)
 		if err != nil {
 			return nil, fmt.Errorf("failed to decode senc in UUID: %w", err)
